@@ -86,7 +86,8 @@ EncPairs(ps) == IF ps = <<>> THEN <<>> ELSE <<SP>> \o ps[1][1] \o <<EQ>> \o EncV
 RefEncode(ps) == Setconf \o EncPairs(ps)
 
 \* what C12 demands of one recorded call:
-\*   v = [pairs (as str()-ed by the API), keysok (keys from the config-name alphabet), wrote (bytes written), err]
+\*   v = [pairs (as str()-ed by the API), keysok (keys from the config-name alphabet), wrote (bytes written), err,
+\*        lruns / wruns (lengths of the long filler runs in the pairs / in the bytes written)]
 RECURSIVE SplitCRLF(_, _, _)
 SplitCRLF(b, i, cur) ==    \* complete lines (terminated by CR LF) in b, plus the unterminated rest
   IF i > Len(b) THEN [lines |-> <<>>, rest |-> cur]
@@ -101,6 +102,11 @@ Holds12(v) ==
      /\ Len(sp.lines) = 1 /\ sp.rest = <<>>          \* exactly one command line
      /\ NoCRLF(sp.lines[1])
      /\ (v.keysok => LET p == ParseSetconf(sp.lines[1]) IN p.ok /\ p.pairs = v.pairs)
+     \* long-line vectors (a call of more than 2^20 bytes): every run of 1024 or more filler bytes is cut to four by the
+     \* recorder, in the given pairs and in the bytes written alike (sound: KvLine_MC!RunBlind); the lengths of the runs
+     \* are carried separately, in order - a run that is split, shortened or repeated, or a call divided over several
+     \* lines because of its size, is rejected here or above
+     /\ v.lruns = v.wruns
 
 ----------------------------------------------------------------------------
 (* Part B: GETINFO / GETCONF replies.                                       *)
